@@ -315,12 +315,14 @@ Proof. exact cyclic_heap_not_acyclic. Qed.
 Print Assumptions C04_cyclic_heap_not_acyclic.
 
 (* ---- what keeps the heap acyclic (C04VmProofs8.v, C04VmProofs9.v) ---- *)
-From Cao Require Import C04VmProofs8 C04VmProofs9 C04VmLink.
+From Cao Require Import C04VmProofs8 C04VmProofs9 C04VmProofs10 C04VmLink.
 
 (* every instruction except SetProperty (33), AppendTable (40) and the natives (CallNative; CallFunction of a
    native function value) keeps heap_acyclic *)
-Theorem C04_step_keeps_acyclic : forall F bld P reenter ip0 s ip' s',
-  step F bld P reenter ip0 s = SNext ip' s' ->
+(* [res_st r] = the state of a result that is not an abort (SNext, SExit or SErr: also the state that a failing
+   nested run hands back) *)
+Theorem C04_step_keeps_acyclic : forall F bld P reenter ip0 s s',
+  res_st (step F bld P reenter ip0 s) = Some s' ->
   heap_acyclic (st_heap s) -> heap_closed (st_heap s) ->
   ~ In (opcode_at P ip0) [4; 33; 40]%N ->
   (opcode_at P ip0 = 11%N -> forall a h, top1 s = VObj a -> hget (st_heap s) a <> Some (ONative h)) ->
@@ -331,18 +333,29 @@ Print Assumptions C04_step_keeps_acyclic.
 (* SetProperty / AppendTable keep the ranks when the stored key and value are ranked below the instance
    (vdepth = 1 + rank of a table, 0 of anything else); storing a table into a table that it reaches is how a
    program builds a cycle (C04_cyclic_table_aborts) *)
-Theorem C04_set_property_ranked : forall F opc ip0 ip s ip' s' rk a,
-  i_33 F opc ip0 ip s = SNext ip' s' -> ranked (st_heap s) rk -> speek s 1 = VObj a ->
+Theorem C04_set_property_ranked : forall F opc ip0 ip s s' rk a,
+  res_st (i_33 F opc ip0 ip s) = Some s' -> ranked (st_heap s) rk -> speek s 1 = VObj a ->
   vdepth (st_heap s) rk (speek s 0) <= rk a -> vdepth (st_heap s) rk (speek s 2) <= rk a ->
   ranked (st_heap s') rk.
 Proof. exact set_property_ranked. Qed.
 Print Assumptions C04_set_property_ranked.
 
-Theorem C04_append_table_ranked : forall F opc ip0 ip s ip' s' rk a,
-  i_40 F opc ip0 ip s = SNext ip' s' -> ranked (st_heap s) rk -> speek s 0 = VObj a ->
+Theorem C04_append_table_ranked : forall F opc ip0 ip s s' rk a,
+  res_st (i_40 F opc ip0 ip s) = Some s' -> ranked (st_heap s) rk -> speek s 0 = VObj a ->
   vdepth (st_heap s) rk (speek s 1) <= rk a -> ranked (st_heap s') rk.
 Proof. exact append_table_ranked. Qed.
 Print Assumptions C04_append_table_ranked.
+
+(* natives_simple is kept by every instruction; NativeFunctionPointer (38) is the only one that creates native
+   function values, and the names it can create are in the program text ([native_pointers_simple]) *)
+Theorem C04_step_keeps_natives_simple : forall F bld P reenter ip0 s s',
+  res_st (step F bld P reenter ip0 s) = Some s' ->
+  native_pointers_simple P -> natives_simple (st_heap s) ->
+  opcode_at P ip0 <> 4%N ->
+  (opcode_at P ip0 = 11%N -> forall a h, top1 s = VObj a -> hget (st_heap s) a <> Some (ONative h)) ->
+  natives_simple (st_heap s').
+Proof. exact step_keeps_natives_simple. Qed.
+Print Assumptions C04_step_keeps_natives_simple.
 
 (* ---- C10 gives code_ok; Vm::run of a compiled program ---- *)
 Theorem C04_wellformed_code_ok : forall w B,
